@@ -423,7 +423,13 @@ def parse_template(path):
             i += 1
             continue
         d, arg = mm.group(1), mm.group(2).strip()
-        if d == "unit-props":
+        if d == "include":
+            inc = os.path.join(os.path.dirname(path), arg)
+            with open(inc, encoding="utf-8") as f:
+                for k, l in enumerate(f.read().split("\n")):
+                    nodes.append(("text", i + 1, l))
+            i += 1
+        elif d == "unit-props":
             settings["unit_props"] = arg.split()
             i += 1
         elif d == "fn-props":
